@@ -110,7 +110,7 @@ func c03One(c *core.Ctx, cs srcCase) {
 			c.Stat("grammar_valid_programs_with_semantic_errors(not judged)", 1)
 			return
 		}
-		c.Report("valid program rejected ("+fam+", "+cs.Why+"): "+errClass(res.Errs[0].Msg), mkWhat("%s in %q under %s", errList(res.Errs), cs.Src, cs.Ver), cs)
+		c.Report("valid program rejected ("+fam+", "+cs.Why+")", mkWhat("%s in %q under %s", errList(res.Errs), cs.Src, cs.Ver), cs)
 		return
 	}
 	vocabCheck(c, cs, res.Root)
